@@ -233,8 +233,71 @@ def make_wall_points_run(lower_wall, upper_wall, li, ui, n=5):
     return run
 
 
+def find_intersection_choice(S):
+    """The real _find_intersection on a recorder contour whose segments cross the wall where the
+    test says (wallIntersection answers from a table; fine contour = the contour itself): when
+    a contour crosses the wall more than once (re-entrant wall, many guard points) the target is
+    the FIRST crossing met on leaving the plasma -- scanning from the X-point end at a lower wall,
+    from the X-point end at an upper wall -- and the index returned is that segment's."""
+    import contextlib
+    import io
+    import types
+
+    from hypnotoad.core import mesh as M
+    from hypnotoad.core.equilibrium import Point2D
+
+    bad, n = [], 0
+    npts = 7
+    pts = [Point2D(1.0 + 0.1 * k, 0.05 * k * k) for k in range(npts)]
+
+    def run(crossing_segments, lower_wall, upper_wall):
+        cross = {frozenset((a, a + 1)): Point2D(0.5 * (pts[a].R + pts[a + 1].R), 0.5 * (pts[a].Z + pts[a + 1].Z)) for a in crossing_segments}
+
+        def wall_intersection(p, q):
+            try:
+                i, j = next(k for k, x in enumerate(pts) if x is p or (x.R == p.R and x.Z == p.Z)), next(k for k, x in enumerate(pts) if x is q or (x.R == q.R and x.Z == q.Z))
+            except StopIteration:
+                return None
+            return cross.get(frozenset((i, j)))
+
+        fine = types.SimpleNamespace(positions=numpy.array([[p.R, p.Z] for p in pts]), distance=numpy.arange(npts, dtype=float))
+        fine.getDistance = lambda pt: next(0.5 * (a + a + 1) for a in range(npts - 1) if cross.get(frozenset((a, a + 1))) is pt)
+
+        class C(list):
+            pass
+
+        c = C(pts)
+        c.get_fine_contour = lambda psi=None: fine
+        c.get_distance = lambda psi=None: list(range(npts))
+        c.refinePoint = lambda p, t, psi=None: p
+        c.temporaryExtend = lambda **k: (_ for _ in ()).throw(AssertionError("extension not expected"))
+        eq = types.SimpleNamespace(wallIntersection=wall_intersection, psi=None)
+        with contextlib.redirect_stdout(io.StringIO()):
+            return M._find_intersection(0, c, equilibrium=eq, lower_wall=lower_wall, upper_wall=upper_wall, max_extend=5, psi="PSI")
+
+    cases = [
+        ((1,), True, False, 1, None), ((0,), True, False, 0, None), ((0, 3), True, False, 3, None), ((1, 2, 4), True, False, 4, None),
+        ((4,), False, True, None, 4), ((5,), False, True, None, 5), ((2, 5), False, True, None, 2), ((1, 3, 4), False, True, None, 1),
+    ]
+    for segs, lw, uw, want_lo, want_up in cases:
+        n += 1
+        try:
+            out = run(segs, lw, uw)
+        except Exception as e:
+            bad.append(dict(crossings=segs, lower_wall=lw, problem="raised %r" % e))
+            continue
+        _, lo_i, lo_p, up_i, up_p = out
+        if lw and not (lo_i == want_lo and lo_p is not None and abs(lo_p.R - 0.5 * (pts[want_lo].R + pts[want_lo + 1].R)) < 1e-12):
+            bad.append(dict(crossings=segs, wall="lower", index=lo_i, wanted_segment=want_lo))
+        if uw and not (up_i == want_up and up_p is not None and abs(up_p.R - 0.5 * (pts[want_up].R + pts[want_up + 1].R)) < 1e-12):
+            bad.append(dict(crossings=segs, wall="upper", index=up_i, wanted_segment=want_up))
+    S.static_vc("_find_intersection", "hypnotoad.core.mesh:_find_intersection", "with several wall crossings on one contour the target is the first one met on leaving the plasma, and the segment index returned is that crossing's (%d crossing patterns)" % n, not bad and n == 8, detail=repr(bad[:3]), kind="native-all-classes", model=bad[0] if bad else None)
+
+
 def build(S):
     mk.silence_pyplot()
+    find_intersection_choice(S)
+    S.under_contract("hypnotoad.core.mesh:_find_intersection")
     S.under_contract(FN_ADD, FN_PM, FN_INIT, "hypnotoad.core.equilibrium:Equilibrium.__init__", "hypnotoad.utils.polygons:clockwise")
     S.assume("ASSUMED, not established by the code: the centre of the (Rmin,Rmax)x(Zmin,Zmax) box lies inside the wall, so that crossing parity from it decides inside/outside")
     S.assume("addPointAtWallToContours: _find_intersection is replaced by its result (wall point on a given segment; C20 wallIntersection + C01 refinement); precondition: the two wall points of one contour are at least wall_point_exclude_radius apart; contourSfunc / totalDistance are stubs")
